@@ -134,7 +134,8 @@ def plan(ctx):
     """(space, cfg, which perms, player perms)"""
     out = [("T3", "K0", "all", False), ("T4|V4", "K0", "all", False), ("T4", "K0", "adjacent", False),
            ("P2", "K0", "none", True), ("P3", "K0", "adjacent", True), ("T3|V6", "K5", "all", False), ("T3|V6", "K8", "all", False),
-           ("T5|V2", "K0", "adjacent", False), ("D7b1", "K0", "adjacent", False), ("PK", "K0", "adjacent", True)]
+           ("T5|V2", "K0", "adjacent", False), ("D7b1", "K0", "adjacent", False), ("PK", "K0", "adjacent", True),
+           ("P3", "K5", "none", True)]  # limit_sigma in force: the clamp must not depend on the player order
     if ctx.thorough:
         out += [("T4", "K0", "all", False), ("T5|V2", "K0", "all", False), ("T5|V3", "K0", "adjacent", False), ("T6|V2", "K0", "adjacent", False),
                 ("D7", "K0", "adjacent", False), ("D8", "K0", "adjacent", False), ("T3", "K2", "all", False), ("T3", "K4", "all", False), ("T3", "K7", "all", False)]
